@@ -480,6 +480,12 @@ def run(chk):
     chk.guard('C15.H', c15.check_wrappers, chk)
     keep = ('regexSplit', 'arraySlice', 'arrayGet', 'arrayLength', 'arrayPush', 'arrayExtend', 'arrayCopy')
     chk.instances[before:] = [i for i in chk.instances[before:] if any(k in i['instance'] for k in keep) or i['verdict'] != 'OK']
+    # diffLines is lowered to jumps with generated label names that repeat in every parsed file: label lookup must stay per invocation (shared C08.L / C08.E)
+    from . import c08
+    chk.rule('C08.L', 'shared with C08: the label-index cache is local to the invocation (generated label names repeat across files and functions)')
+    chk.rule('C08.E', 'shared with C08: abstract execution of the statement loop')
+    chk.guard('C08.L', c08.check_labels, chk)
+    chk.guard('C08.E', c08.check_step, chk)
     # value comparison used by == on lines (shared C11.F)
     from . import c11
     chk.rule('C11.F', 'shared with C11: strings compare as they are (the == on lines)')
